@@ -297,7 +297,15 @@ func init() {
 	// time -------------------------------------------------------------------
 	timeT := func(u *Unit) types.Type { return u.w.lookupType("time", "Time") }
 	externals["time.Now"] = func(u *Unit, fr *frame, st *State, c *ssa.Function, a []Value, rt types.Type, pos token.Pos) Value {
-		return Sc{u.ctx.Fresh("now", SInt), rt}
+		// the k-th executed time.Now() of the unit is the constant time.Now#k (spec builtin now() / now(k))
+		if u.specMode == 0 {
+			u.nowN++
+		}
+		n := u.nowN
+		if n == 0 {
+			n = 1
+		}
+		return Sc{u.ctx.Const(fmt.Sprintf("time.Now#%d", n), SInt), rt}
 	}
 	externals["(time.Time).Before"] = func(u *Unit, fr *frame, st *State, c *ssa.Function, a []Value, rt types.Type, pos token.Pos) Value {
 		return Sc{Cmp("<", fsc(u, a[0]), fsc(u, a[1])), types.Typ[types.Bool]}
